@@ -597,7 +597,9 @@ class CsvReader:
         self.__bin_bounds: Final[tuple[tuple[str, int], ...]] = \
             csv_select_scope(
                 lambda x: tuple(sorted(((k, v) for k, v in x.items()))),
-                columns, LOWER_BOUNDS_BIN_COUNT)
+                columns, None,
+                skip_orig_key=lambda s: not str.startswith(
+                    s, LOWER_BOUNDS_BIN_COUNT))
         #: the objective bounds
         self.__objective_bounds: Final[tuple[tuple[str, int], ...]] = \
             csv_select_scope(
